@@ -4369,6 +4369,7 @@ impl Handler {
 
         let logical_program = join_continuation_lines(&strip_comments(trimmed));
         let mut created_here: Vec<String> = Vec::new();
+        let mut dropped_here: Vec<String> = Vec::new();
         for line in logical_program.lines() {
             let line = line.trim();
             if line.is_empty() {
@@ -4464,6 +4465,9 @@ impl Handler {
                 statement::Statement::Meta(statement::MetaCommand::KgCreate(name)) => {
                     created_here.push(name.clone());
                     current_kg = Some(name.clone());
+                }
+                statement::Statement::Meta(statement::MetaCommand::KgDrop(name)) => {
+                    dropped_here.push(name.clone());
                 }
                 _ => {}
             }
@@ -4657,15 +4661,8 @@ impl Handler {
         // Detect KG create/drop before program is moved into query_program.
         // Extracting these from the parsed statement avoids fragile string matching
         // on the result messages.
-        let (kg_create_name, kg_drop_name) = match statement::parse_statement(trimmed) {
-            Ok(statement::Statement::Meta(statement::MetaCommand::KgCreate(name))) => {
-                (Some(name), None)
-            }
-            Ok(statement::Statement::Meta(statement::MetaCommand::KgDrop(name))) => {
-                (None, Some(name))
-            }
-            _ => (None, None),
-        };
+        // (`created_here` / `dropped_here` were collected per statement above.)
+        let kgs_before: Vec<String> = self.storage.read().list_knowledge_graphs();
 
         let result = if is_query {
             if let Some(sid) = session_id {
@@ -4682,12 +4679,16 @@ impl Handler {
             self.sessions.switch_kg(sid, new_kg)?;
         }
 
+        // ACL bookkeeping is driven by what actually happened to the set of knowledge
+        // graphs, not by message text: matching "dropped" in the output also fired for
+        // "Rule 'p' dropped." and removed the ACLs of a graph that still existed.
+        let kgs_after: Vec<String> = self.storage.read().list_knowledge_graphs();
+
         // Auto-grant owner ACL to the creator of a new KG.
-        // Verified by checking switched_kg (only set on successful create).
         if let Some(identity) = effective_auth {
             if identity.role != crate::auth::Role::Admin {
-                if let Some(ref name) = kg_create_name {
-                    if result.switched_kg.as_deref() == Some(name.as_str()) {
+                for name in &created_here {
+                    if kgs_after.contains(name) && !kgs_before.contains(name) {
                         let _ = self.handle_kg_acl_grant(name, &identity.username, "owner");
                     }
                 }
@@ -4695,15 +4696,8 @@ impl Handler {
         }
 
         // If a KG was dropped, clean up sessions and ACLs.
-        // Verified by checking the result message (drop sets a message, not switched_kg).
-        if let Some(ref name) = kg_drop_name {
-            let drop_succeeded = result.rows.iter().any(|row| {
-                matches!(
-                    row.values.first(),
-                    Some(WireValue::String(s)) if s.contains("dropped")
-                )
-            });
-            if drop_succeeded {
+        for name in &dropped_here {
+            if kgs_before.contains(name) && !kgs_after.contains(name) {
                 self.sessions.close_sessions_for_kg(name);
                 self.cleanup_kg_acls(name);
             }
